@@ -210,9 +210,13 @@ pub fn check(case: &Case, ctx: &mut Ctx) {
                     // the payload's register (owner 30 + s % 3, label s % 2), signed by a stranger
                     let owner = 30 + s % 3;
                     let meta = s % 2;
-                    let base = fix::register_base(owner, meta, Some(vec![]));
+                    // half of them open to any writer (nobody's operations need a signature there — the
+                    // owner's signature over the register itself still does), some without any operation
+                    let open = (s / 3) % 2 == 0;
+                    ctx.label(if open { "not_signed_by_owner/open_register" } else { "not_signed_by_owner/owner_only_register" });
+                    let base = fix::register_base(owner, meta, if open { None } else { Some(vec![]) });
                     let ops = fix::register_ops(owner, meta, 3, &[owner]);
-                    let bad = fix::signed_register(&base, 37, ops[0..2].to_vec());
+                    let bad = fix::signed_register(&base, 37, if s % 5 == 0 { vec![] } else { ops[0..2].to_vec() });
                     rec.value = if paid {
                         try_serialize_record(&(proof.clone(), bad), RecordKind::RegisterWithPayment).unwrap().to_vec()
                     } else {
